@@ -534,7 +534,22 @@ pub fn outcome_digest(fp: &mut Fnv, o: &Outcome) {
         return;
     }
     fp.bytes(&o.stdout).bytes(&[0]);
-    fp.bytes(&o.stderr).bytes(&[0]);
+    // digit runs on stderr are not decided by the simulator either (a message may name a temporary file that carries
+    // the process id)
+    let mut err = Vec::with_capacity(o.stderr.len());
+    let mut in_digits = false;
+    for &b in &o.stderr {
+        if b.is_ascii_digit() {
+            if !in_digits {
+                err.push(b'#');
+            }
+            in_digits = true;
+        } else {
+            in_digits = false;
+            err.push(b);
+        }
+    }
+    fp.bytes(&err).bytes(&[0]);
     for t in &o.trace {
         // digit runs in a path are not decided by the simulator (a temporary file may carry the process id)
         let mut path = String::with_capacity(t.path.len());
